@@ -9,6 +9,6 @@ func init() {
 		{Run: "TestModel", Kind: "test"},
 		// enumeration of every chunk size in [8192,12288) and 2^k+-2; the test partitions the domain by VERIF_SHARD
 		{Run: "TestResidues", Quick: 1, Thorough: 1, QShards: 16, TShards: 16, FullChecks: true, Env: env},
-		{Run: "TestGenerated", Quick: 32000, Thorough: 800000, QShards: 16, TShards: 16, Env: env},
+		{Run: "TestGenerated", Quick: 24000, Thorough: 300000, QShards: 16, TShards: 16, Env: env},
 	}}
 }
